@@ -1,4 +1,6 @@
 """Sidecar contracts, one module per repository module (DESIGN section 2.4)."""
 MODULES = [
     "contracts.obs_kernel",
+    "contracts.dirac",
+    "contracts.special",
 ]
